@@ -5,18 +5,18 @@ namespace Verif.Inv.SignalProto
 open Verif.SignalProto
 
 def Inv (s : St) : Prop :=
-  s.mode ≤ 1 ∧ s.stop ≤ 1 ∧ s.fready ≤ 1 ∧ s.notif ≤ 1 ∧ s.lp ≤ 8 ∧ s.result ≤ 2 ∧
+  s.mode ≤ 1 ∧ s.stop ≤ 1 ∧ s.fready ≤ 1 ∧ s.notif ≤ 1 ∧ s.lp ≤ 9 ∧ s.result ≤ 2 ∧
   s.stopAfterReset ≤ 1 ∧ s.wakeAfterStop ≤ 1 ∧ s.wakesPending ≤ 1 ∧ s.futDone ≤ 1 ∧
   (s.lp = 0 → s.stopAfterReset = 0 ∧ s.wakeAfterStop = 0 ∧ s.result = 0 ∧ s.polls = 0 ∧ s.bwStore = 0 ∧ s.bwNotify = 0 ∧ s.wakesPending = 0) ∧
-  (s.mode = 0 → s.lp ≠ 3 ∧ s.bwStore = 0 ∧ s.bwNotify = 0 ∧ s.wakesPending = 0 ∧ s.result ≠ 1) ∧
+  (s.mode = 0 → s.lp ≠ 3 ∧ s.lp ≠ 9 ∧ s.bwStore = 0 ∧ s.bwNotify = 0 ∧ s.wakesPending = 0 ∧ s.result ≠ 1) ∧
   (s.stopAfterReset = 1 → s.stop = 1 ∧ s.lp ≥ 1) ∧
-  (s.wakeAfterStop = 1 → s.stopAfterReset = 1 ∧ ((2 ≤ s.lp ∧ s.lp ≤ 5) → s.notif = 1)) ∧
+  (s.wakeAfterStop = 1 → s.stopAfterReset = 1 ∧ ((2 ≤ s.lp ∧ s.lp ≤ 5) ∨ s.lp = 9 → s.notif = 1)) ∧
   (s.result = 2 → s.stop = 1 ∧ s.lp = 8) ∧
   (s.result = 1 → s.futDone = 1 ∧ s.polls ≥ 1 ∧ s.lp = 8 ∧ s.mode = 1) ∧
   (s.lp = 8 → s.result ≥ 1) ∧ (s.result ≥ 1 → s.lp = 8) ∧
-  (s.fready = 1 → s.mode = 1 ∧ (s.lp = 4 ∨ s.lp = 5 → s.notif = 1 ∨ s.bwNotify > 0)) ∧
+  (s.fready = 1 → s.mode = 1 ∧ (s.lp = 4 ∨ s.lp = 5 ∨ s.lp = 9 → s.notif = 1 ∨ s.bwNotify > 0)) ∧
   (s.wakesPending = 1 → s.fready = 1) ∧
-  (s.mode = 1 → 4 ≤ s.lp → s.lp ≤ 7 → s.polls ≥ 1) ∧
+  (s.mode = 1 → 4 ≤ s.lp → s.lp ≤ 7 ∨ s.lp = 9 → s.polls ≥ 1) ∧
   (s.mode = 1 → 1 ≤ s.lp → s.lp ≤ 3 → s.fready = 0 → s.polls ≥ 1)
 
 theorem inv_init (mode : Nat) (h : mode ≤ 1) : Inv { mode := mode } := by
@@ -126,6 +126,13 @@ theorem inv_swap (s s' : St) (h : Inv s) (hs : step s .swap = some s') : Inv s' 
   (refine ⟨?_, ?_, ?_, ?_, ?_, ?_, ?_, ?_, ?_, ?_, ?_, ?_, ?_, ?_, ?_, ?_, ?_, ?_, ?_, ?_, ?_, ?_⟩) <;> closeArith
 
 set_option maxHeartbeats 1600000 in
+theorem inv_pollEnd (s s' : St) (h : Inv s) (hs : step s .pollEnd = some s') : Inv s' := by
+  unfold Inv at h ⊢
+  simp only [step] at hs
+  (repeat' split at hs) <;> simp only [Option.some.injEq, reduceCtorEq] at hs <;> (try subst hs) <;> simp only <;>
+  (refine ⟨?_, ?_, ?_, ?_, ?_, ?_, ?_, ?_, ?_, ?_, ?_, ?_, ?_, ?_, ?_, ?_, ?_, ?_, ?_, ?_, ?_, ?_⟩) <;> closeArith
+
+set_option maxHeartbeats 1600000 in
 theorem inv_enterWait (s s' : St) (h : Inv s) (hs : step s .enterWait = some s') : Inv s' := by
   unfold Inv at h ⊢
   simp only [step] at hs
@@ -160,6 +167,7 @@ theorem inv_step (s s' : St) (a : Act) (h : Inv s) (hs : step s a = some s') : I
   · exact inv_check s s' h hs
   · exact inv_afterChecked s s' h hs
   · exact inv_swap s s' h hs
+  · exact inv_pollEnd s s' h hs
   · exact inv_enterWait s s' h hs
   · exact inv_waitReturn s s' h hs
   · exact inv_afterWait s s' h hs
